@@ -1525,6 +1525,12 @@ class BuiltinMixin:
     def m_Path_is_file(self, st, p, args, kwargs):
         return self._path_fs_bool(st, p, "is_file")
 
+    def m_Path_is_symlink(self, st, p, args, kwargs):
+        return self._path_fs_bool(st, p, "is_symlink")
+
+    def m_Path_is_dir(self, st, p, args, kwargs):
+        return self._path_fs_bool(st, p, "is_dir")
+
     def m_Path_resolve(self, st, p, args, kwargs):
         out = []
         for s, r in self.opaque_call(st, "Path.resolve", [p], may_raise=("OSError",)):
